@@ -153,8 +153,17 @@ func AddStandardFilters(fd FilterDictionary) { //nolint: gocyclo
 	})
 	fd.AddFilter("round", func(n float64, places func(int) int) float64 {
 		pl := places(0)
+		if math.Abs(n) >= 1<<52 {
+			return n // every float64 of this magnitude is already a whole number
+		}
 		exp := math.Pow10(pl)
-		return math.Floor(n*exp+0.5) / exp
+		// round half up; adding 0.5 before Floor is inexact for magnitudes of 2^52 and above
+		x := n * exp
+		r := math.Floor(x)
+		if x-r >= 0.5 {
+			r++
+		}
+		return r / exp
 	})
 
 	// sequence filters
